@@ -6,8 +6,10 @@ import (
 	"flag"
 	"fmt"
 	"os"
+	"strings"
 
 	"verif.local/harness/drivers/cachedrv"
+	"verif.local/harness/drivers/envdrv"
 )
 
 func die(err error) {
@@ -29,6 +31,8 @@ func main() {
 	trace := fs.String("trace", "trace.ndjson", "ndjson trace to write")
 	seed := fs.Int64("seed", 1, "random seed")
 	cfgJSON := fs.String("cfg", "", "driver-specific configuration (json)")
+	variants := fs.String("variants", "", "comma separated key-cache policies to rotate through")
+	strict := fs.Bool("strict", true, "compare with the model prediction and count drift")
 	die(fs.Parse(args))
 	switch cmd {
 	case "cache-replay":
@@ -37,6 +41,12 @@ func main() {
 		var cfgs []cachedrv.TraceCfg
 		die(json.Unmarshal([]byte(*cfgJSON), &cfgs))
 		die(cachedrv.Trace(cfgs, *seed, *trace, *out))
+	case "env-replay":
+		var vs []string
+		if *variants != "" {
+			vs = strings.Split(*variants, ",")
+		}
+		die(envdrv.Replay(*in, *trace, *out, envdrv.Options{Seed: *seed, Strict: *strict}, vs))
 	default:
 		fmt.Fprintln(os.Stderr, "unknown driver", cmd)
 		os.Exit(2)
